@@ -6,6 +6,7 @@ import NanoVerif.Model.Cop
 import NanoVerif.Model.CopClient
 import NanoVerif.Model.Gate
 import NanoVerif.Model.Runtime
+import NanoVerif.Model.Compile
 namespace NanoVerif.Driver
 
 def natList (ws : List String) : Option (List Nat) := ws.mapM String.toNat?
@@ -315,6 +316,36 @@ def gcCmd (ops : String) : String :=
     | _ => (g, ids, out ++ ["?"])
   ",".intercalate ((ops.splitOn ",").foldl step ({}, [], [])).2.2
 
+/-- `lex <hex>`: token type numbers and values, `<n>:<hexvalue>` separated by spaces -/
+def lexCmd (hex : String) : String :=
+  match ofHex hex with
+  | none => "bad-op"
+  | some bs =>
+    match lex bs with
+    | .error e => "err " ++ (match e with | .unterminatedChar => "char" | .incompleteEscape => "escape" | .unterminatedString => "string")
+    | .ok lo => s!"ok u={lo.unknown} " ++ " ".intercalate (lo.toks.map fun t => s!"{t.ty.toNat}:{hexOr t.val}")
+
+def cgErrText : CgErr → String
+  | .undefinedVar x => "cg-undefined-variable " ++ x
+  | .undefinedFn f => "cg-undefined-function " ++ f
+  | .limit w => "cg-limit " ++ w.replace " " "_"
+  | .bad w => "cg-error " ++ w.replace " " "_"
+  | .unsupported w => "unsupported " ++ w.replace " " "_"
+
+/-- `compile <hex source>`: the serialised module the three front-end models produce -/
+def compileCmd (hex : String) : String :=
+  match ofHex hex with
+  | none => "bad-op"
+  | some bs =>
+    match compileSource bs with
+    | .error (.lex _) => "lex-error"
+    | .error (.parse .reject) => "parse-error"
+    | .error (.parse .tooDeep) => "parse-error"
+    | .error (.parse .unsupported) => "unsupported parse"
+    | .error (.parse .fuel) => "model-fuel"
+    | .error (.cg e) => cgErrText e
+    | .ok m => "ok " ++ hexOr (serialize m)
+
 def handle (line : String) : String :=
   match line.splitOn " " with
   | "isa.dec" :: [hex] => isaDec hex
@@ -331,6 +362,8 @@ def handle (line : String) : String :=
   | "gate" :: ws => gateCmd ws
   | "dyn" :: [ops] => dynCmd ops
   | "gc" :: [ops] => gcCmd ops
+  | "lex" :: [hex] => lexCmd hex
+  | "compile" :: [hex] => compileCmd hex
   | _ => "bad-op"
 
 end NanoVerif.Driver
